@@ -94,3 +94,7 @@ where
         }
     }
 }
+
+#[cfg(futures_buffered_verif)]
+#[path = "/verif/hooks/for_each.rs"]
+mod verif_hooks;
